@@ -130,6 +130,18 @@ func init() {
 			return nil
 		},
 		ndPkg + "AllocBytes": func(m *Machine, c *frame, a []value) value { return m.allocBytes },
+		ndPkg + "Go": func(m *Machine, c *frame, a []value) value {
+			m.goThread(a[0])
+			return nil
+		},
+		ndPkg + "Yield": func(m *Machine, c *frame, a []value) value {
+			m.yield()
+			return nil
+		},
+		ndPkg + "WaitAll": func(m *Machine, c *frame, a []value) value {
+			m.waitAll()
+			return nil
+		},
 		ndPkg + "Freeze": func(m *Machine, c *frame, a []value) value {
 			m.freezeBelow = m.objSeq
 			m.frozen = true
